@@ -20,6 +20,10 @@ QUICK = [
     ("cube-refine-raw", "cube.vtk", "1e-6", 12, 2, {"perform_initial_triangulation": "0"}, {}),
     ("4cubes-refine-raw-swap", "4_cubes.vtk", "1e-6", 8, 4, {"perform_initial_triangulation": "0", "enable_edge_swap_operation": "1"}, {}),
     ("4cubes-contacts", "4_cubes.vtk", "1e-6", 25, 4, {}, {}),
+    # a mesh file (hence a compaction of every cell: cell::rebase) at the start of EVERY iteration: rebase is entered with every mix of
+    # released node / face slots the refinement of one iteration can leave (only nodes, only faces, both, none)
+    ("cube-refine-save-every-iteration", "cube.vtk", "1e-6", 80, 2, {"sampling_period": "1e-7"}, {}),
+    ("4cubes-raw-swap-save-every-iteration", "4_cubes.vtk", "1e-6", 30, 4, {"perform_initial_triangulation": "0", "enable_edge_swap_operation": "1", "sampling_period": "1e-7"}, {}),
     ("sphere-division", "sphere.vtk", "7.5e-7", 40, 3, {}, {"avg_division_volume": "1e-18", "std_division_volume": "0"}),
     ("lumen-bpa", "lumen_initial_mesh.vtk", "2e-6", 2, 4, {}, {}),
     ("2cubes-removal", "2_cubes.vtk", "1e-6", 12, 2, {"min_vol": "1"}, {}),
